@@ -35,6 +35,15 @@ func (e *Engine) fillRandom(dst Slice, src string) {
 	}
 }
 
+// randFails: after verifrt.RandMayFail() every draw from crypto/rand forks into "delivered" and "the source
+// returned an error and no bytes" (a failing /dev/urandom or getrandom).
+func (e *Engine) randFails() bool {
+	if on, _ := e.pathData["randMayFail"].(bool); !on {
+		return false
+	}
+	return e.branch(e.envFresh(0, "cryptofail"))
+}
+
 type opaqueRand struct{ src string }
 
 var opaqueRandT = types.NewNamed(types.NewTypeName(0, nil, "opaqueRand", nil), types.NewStruct(nil, nil), nil)
@@ -48,6 +57,9 @@ func init() {
 	})
 	I("crypto/rand.Read", func(e *Engine, fr *frame, a []Value) Value {
 		s := a[0].(Slice)
+		if e.randFails() {
+			return Tuple{BV(64, 0), mkErr("crypto/rand: the operating system's random source is unavailable", nil)}
+		}
 		e.fillRandom(s, "crypto")
 		return Tuple{BV(64, int64(len(s.a))), Iface{}}
 	})
@@ -86,6 +98,9 @@ func init() {
 	// crypto/rand.Int(reader, max)
 	I("crypto/rand.Int", func(e *Engine, fr *frame, a []Value) Value {
 		n := bigGet(a[1])
+		if e.randFails() {
+			return Tuple{(*Value)(nil), mkErr("crypto/rand: the operating system's random source is unavailable", nil)}
+		}
 		r := e.envFresh(n.w, "crypto")
 		e.assume(Ult(r, n.t))
 		return Tuple{e.newBig(&bigVal{n.w, r, false}), Iface{}}
@@ -196,6 +211,10 @@ func init() {
 		}
 		sort.Strings(keys)
 		return strings.Join(keys, ",")
+	}
+	rtIntrinsics["RandMayFail"] = func(e *Engine, fr *frame, a []Value) Value {
+		e.pathData["randMayFail"] = true
+		return nil
 	}
 	rtIntrinsics["Reseeded"] = func(e *Engine, fr *frame, a []Value) Value {
 		r, _ := e.pathData["reseeded"].(bool)
